@@ -15,7 +15,7 @@ LEVEL = "exploration"
 RULE = ("(1) bounded-exhaustive: all strings up to a length bound over eight 9-10 symbol alphabets that together cover "
         "every rule and state, under the default table and two custom tables (split over the shards); "
         "(2) sampled: state-aware / template / mutated / uniform strings, with symbols outside the grammar at drawn "
-        "positions, under generated tables. Oracle: DecoderError <=> R2 rejects; else the output re-read by R1 equals "
+        "positions and unclosed brackets at the end of the string or of a fragment, under generated tables. Oracle: DecoderError <=> R2 rejects; else the output re-read by R1 equals "
         "R2's molecule (atoms in order, bonds, marks, roots, chiral sense). non-trivial = the derivation applies a branch "
         "or ring rule at a state where it is not skipped; distinct = distinct (table, string)")
 ASSUMPTIONS = ["R2 is an executable rendering of docs/source/derivation.rst in modern symbol names",
